@@ -365,6 +365,8 @@ class Machine(object):
                 it.val = ("i", it.lid)
             elif it.mode == "err":
                 it.err = ("item", it.lid)
+            elif it.mode == "errf":
+                it.err = ("itemf", it.lid)
             elif mode == "setraise":
                 it.err = ("flushlate", kind)
             else:
